@@ -281,6 +281,9 @@ def c05_forms(rng, n):
             t = "abs:" + tpl + "|" + ("" if not cs else order)
         else:
             t = "abs:" + order + ":" + ("monthname" if tpl in MONTHNAME_TPLS else "numeric")
+        if rng.random() < 0.1:
+            # brackets / a trailing comma: pre-processing turns them into blanks
+            s = rng.choice(["(%s)", "%s,", "[%s]", "%s ;"]) % s
         if two_digit and y < 2000:
             t = "abs:dd.mm.yy-19yy"
         out.append({"c": "abs", "p": p, "s": s, "t": t, "two_digit": two_digit})
